@@ -165,7 +165,7 @@ DConsumeCursor(D, kind, op, res) ==
 
 \* --------------------------------------------------------------- entry --
 \* The Entry API must behave like the direct operations on that key.
-DEntry(D, cap, m, k, v, w, res) ==
+DEntry(D, cap, m, k, v, w, fresh, res) ==     \* fresh = tag of the object V::default() creates
   LET occ == DHas(D, k.c)
       e == DAt(D, k.c)
       full == Cardinality(D) >= cap
@@ -186,7 +186,7 @@ DEntry(D, cap, m, k, v, w, res) ==
          ELSE Ins(v, <<"vac", v.vt, v.v, 1, k.kt, k.c, k.r>>)
     [] m = "or_default" ->
          IF occ THEN Out(res, <<"occ">> \o DJVal(e), D, {k.kt}, {})
-         ELSE Ins([vt |-> DFreshTag, v |-> 0], <<"vac", DFreshTag, 0>>)
+         ELSE Ins([vt |-> fresh, v |-> 0], <<"vac", fresh, 0>>)
     [] m = "and_modify" ->
          IF occ THEN Out(res, <<"occ", e.vt, DWrite(e, w).v, 1>>, (D \ {e}) \cup {DWrite(e, w)}, {k.kt}, {v.vt})
          ELSE Ins(v, <<"vac", v.vt, v.v, 0>>)
@@ -370,7 +370,7 @@ DictAllows(D, cap, op, res) ==
                                     -> DBorrowCursor(D, op.kind, op, op.w, res)
     [] op.name = "cursor" /\ op.kind \in {"into_iter", "into_keys", "into_values"}
                                     -> DConsumeCursor(D, op.kind, op, res)
-    [] op.name = "entry"            -> DEntry(D, cap, op.m, op.k, op.v, op.w, res)
+    [] op.name = "entry"            -> DEntry(D, cap, op.m, op.k, op.v, op.w, IF "fresh" \in DOMAIN op THEN op.fresh ELSE DFreshTag, res)
     [] op.name = "disjoint"         -> DDisjoint(D, op.ks, op.w, op.unchecked, res)
     [] op.name \in {"from_iter", "from_array"} -> DFromIter(cap, op.items, res)
     [] op.name = "fmt"              -> DFmt(D, res)
